@@ -18,6 +18,7 @@ from .. import encode, genpel, tlc, udrun
 ID = 'C04'
 LEVEL = 'model_checking'
 TRACE = 'trace/Trace_UD'
+PROCESS_EVERY = 4         # every fourth case decodes through the real tool as a real process (seams.PROC_VARIANTS)
 RULE = ('case = one route of the user-data route space (emitted exhaustively by TLC) x one payload family member, '
         'realised as a section of a PEL and decoded by the real parsePEL; non-trivial = every record (a payload of '
         '>= 1 byte is always present); distinct = by (route, payload)')
@@ -144,7 +145,27 @@ def build(rng, it):
             canon = json.dumps({'Data': [name, sec['sub'], sec['ver'], bytes(payload).hex()]}, sort_keys=True)
     pel = genpel.gen_pel(rng, kinds=[], creator=pel_creator)
     others = [genpel.gen_mt(rng)] if k % 2 else []
-    pel['secs'] = others + [sec] + ([genpel.gen_other(rng, 'EI')] if k % 3 == 0 else [])
+    after = [genpel.gen_other(rng, 'EI')] if k % 3 == 0 else []
+    # neighbours that are shown under the SAME name as the section in focus (another user-data section, another
+    # unknown one), next to it or with something in between, in front of it, behind it, or both: what is shown for
+    # a section does not depend on its neighbours.  (No parser is consulted for them: only where plug-ins are off.)
+    def same():
+        if kind == 'OTHER':
+            return genpel.gen_other(rng, rng.choice(['XX', 'ZQ', 'Ud']))
+        n_ = genpel.gen_ud(rng, route='noparser', creator=pel_creator) if kind == 'UD' else genpel.gen_ed(rng, creator=sel)
+        n_['comp'] = [0x12, 0x34]
+        return n_
+    if kind == 'OTHER' or not r['plugins']:
+        lay = rng.randrange(6)
+        if lay == 1:
+            others = [same()] + others
+        elif lay == 2:
+            after = after + [genpel.gen_mt(rng), same()]
+        elif lay == 3:
+            others, after = [same(), genpel.gen_mt(rng)], [genpel.gen_mt(rng), same()]
+        elif lay == 4:
+            others, after = [same(), same(), genpel.gen_mt(rng)], after
+    pel['secs'] = others + [sec] + after
     return pel, len(others), canon
 
 
